@@ -44,21 +44,19 @@ def heads():
     return hs
 
 def single_lines(tier):
-    out = []
+    """generator: memory stays flat in the thorough tier (12 M lines)"""
     for name, h in heads():
-        out.append(h)
+        yield h
         for a in DICT:
-            out.append(h + ' ' + a)
-        two = DICT if tier == 'thorough' or True else CORE
+            yield h + ' ' + a
         for a in DICT:
             for b in (DICT if (tier == 'thorough') else CORE + VALID[:6]):
-                out.append(h + ' ' + a + ', ' + b)
+                yield h + ' ' + a + ', ' + b
         three = DICT[:40] if tier == 'thorough' else CORE[:10]
         for a in three:
             for b in three:
                 for c in three:
-                    out.append(h + ' ' + a + ', ' + b + ', ' + c)
-    return out
+                    yield h + ' ' + a + ', ' + b + ', ' + c
 
 CONTEXTS = {
     'plain': ('', ''),
@@ -196,26 +194,65 @@ def run_isolated(cases, per_case_s=0.02, floor_s=20):
         stack.append(rest[h:]); stack.append(rest[:h])
     return res, bad
 
+BATCH = 250000
+
 def run(tier, seed, model_ok):
     rng = random.Random(seed)
     t0 = time.time()
-    cases, src = [], {}
-    def add(tid, text):
+    dist, results = Counter(), Counter()
+    vio, dis = [], []
+    distinct = set()
+    total = [0]
+    batch, src = [], {}
+
+    def judge(cases, impl, bad):
+        for tid, st in bad.items():
+            vio.append({'what': 'the assembler did not return: worker ' + st[:200], 'source': src[tid][:2000].decode('utf-8', 'replace'), 'source_len': len(src[tid]), 'key': 'abort'})
+        for tid, _, _ in cases:
+            r = impl.get(tid)
+            results[(r or 'none').split()[0]] += 1
+            if r is None and tid not in bad:
+                vio.append({'what': 'no answer from the worker', 'source': src[tid][:500].decode('utf-8', 'replace'), 'key': 'noanswer'})
+            elif r is not None and not (r.startswith('OK') or r.startswith('ERR')):
+                vio.append({'what': 'the assembler panicked (caught unwind): ' + r[:60], 'source': src[tid][:2000].decode('utf-8', 'replace'), 'key': 'panic'})
+
+    def flush():
+        if not batch: return
+        impl, bad = run_isolated(batch)
+        judge(batch, impl, bad)
+        if model_ok:
+            plain = [c for c in batch if len(src[c[0]]) <= 20000]     # the model is quadratic on very long inputs
+            model = vlib.run_model(plain, vlib.cwd_prelude())
+            for tid, _, _ in plain:
+                if tid in bad: continue
+                a, b = impl.get(tid), model.get(tid, 'MISSING')
+                if a != b and len(dis) < 200:
+                    dis.append({'input': src[tid][:1500].decode('utf-8', 'replace'), 'impl': (a or '')[:160], 'model': b[:160]})
+            if '__died__' in model:
+                dis.append({'input': 'model driver died', 'impl': '', 'model': model['__died__']})
+        total[0] += len(batch)
+        batch.clear(); src.clear()
+
+    def add(tid, text, kind):
         if isinstance(text, str): text = text.encode('utf-8', 'surrogateescape')
-        cases.append((tid, 'B', text.hex() if text else '-'))
+        batch.append((tid, 'B', text.hex() if text else '-'))
         src[tid] = text
-    lines = single_lines(tier)
-    dist = Counter()
-    for i, l in enumerate(lines):
-        add('s%d' % i, PRELUDE + l); dist['single line'] += 1
-    ctx_lines = lines if tier == 'thorough' else [l for i, l in enumerate(lines) if i % 23 == 0]
-    for cname, (pre, post) in CONTEXTS.items():
-        if cname == 'plain': continue
-        for i, l in enumerate(ctx_lines):
-            add('c_%s_%d' % (cname, i), PRELUDE + pre + l + post); dist['line in context ' + cname] += 1
+        dist[kind] += 1
+        distinct.add(hash(text))
+        if len(batch) >= BATCH: flush()
+
+    samples = []
+    n = 0
+    for l in single_lines(tier):
+        if n in (5, 1000): samples.append(PRELUDE + l)
+        add('s%d' % n, PRELUDE + l, 'single line'); n += 1
+        if tier == 'thorough' or n % 23 == 1:
+            for cname, (pre, post) in CONTEXTS.items():
+                if cname == 'plain': continue
+                add('c_%s_%d' % (cname, n), PRELUDE + pre + l + post, 'line in context ' + cname)
     corpus, known = hostile_corpus()
     for k, v in corpus.items():
-        add('h_' + k.replace(' ', '_'), v); dist['hostile corpus'] += 1
+        add('h_' + k.replace(' ', '_'), v, 'hostile corpus')
     nrand = 1500 if tier == 'quick' else 30000
     bases = [b for _, b in c14.base_programs(rng, 60)]
     for i in range(nrand):
@@ -223,11 +260,12 @@ def run(tier, seed, model_ok):
             g = genprog.Gen(rng.randrange(1 << 30))
             try: text = '\n'.join(g.program(n_lines=rng.choice([5, 20, 60])))
             except Exception: continue
-            add('r%d' % i, text); dist['random program'] += 1
+            add('r%d' % i, text, 'random program')
         else:
             base = '\n'.join(rng.choice(bases))
             if i % 50 == 1: base = (base + '\n') * rng.randrange(2, 40)
-            add('m%d' % i, mutate(rng, base)); dist['mutated program'] += 1
+            add('m%d' % i, mutate(rng, base), 'mutated program')
+    flush()
     # include cycle and friends need files
     root = tempfile.mkdtemp(prefix='avra-c16f-')
     fcases = []
@@ -246,40 +284,24 @@ def run(tier, seed, model_ok):
         tree('binary', {'a.asm': ''}, 'a.asm')
         open(os.path.join(root, 'binary', 'a.asm'), 'wb').write(bytes(range(256)) * 8)
         dist['file trees'] += len(fcases)
-        impl, bad = run_isolated(cases + fcases)
+        impl, bad = run_isolated(fcases)
+        judge(fcases, impl, bad)
+        total[0] += len(fcases)
         kimpl, kbad = run_isolated([('k_' + k.replace(' ', '_'), 'B', v.encode().hex()) for k, v in known.items()])
     finally:
         shutil.rmtree(root, ignore_errors=True)
-    vio, dis = [], []
-    for tid, st in bad.items():
-        vio.append({'what': 'the assembler did not return: worker ' + st[:200], 'source': src[tid][:2000].decode('utf-8', 'replace'), 'source_len': len(src[tid]), 'key': 'abort'})
-    for tid, _, _ in cases + fcases:
-        r = impl.get(tid)
-        if r is None and tid not in bad:
-            vio.append({'what': 'no answer from the worker', 'source': src[tid][:500].decode('utf-8', 'replace'), 'key': 'noanswer'})
-        elif r is not None and not (r.startswith('OK') or r.startswith('ERR')):
-            vio.append({'what': 'the assembler panicked (caught unwind): ' + r[:60], 'source': src[tid][:2000].decode('utf-8', 'replace'), 'key': 'panic'})
     for k in known:
         tid = 'k_' + k.replace(' ', '_')
         if tid in kbad or not (kimpl.get(tid, '').startswith(('OK', 'ERR'))):
             vio.append({'what': 'expression nesting deep enough to exhaust the stack of the recursive-descent parser', 'input': k, 'result': kbad.get(tid, kimpl.get(tid, ''))[:120], 'key': 'deep-nesting:' + k})
-    if model_ok:
-        plain = [c for c in cases if len(src[c[0]]) <= 20000]     # the interpreted model is slow on the very long inputs
-        model = vlib.run_model(plain, vlib.cwd_prelude())
-        for tid, _, _ in plain:
-            if tid in bad: continue
-            a, b = impl.get(tid), model.get(tid, 'MISSING')
-            if a != b:
-                dis.append({'input': src[tid][:1500].decode('utf-8', 'replace'), 'impl': (a or '')[:160], 'model': b[:160]})
-        if '__died__' in model:
-            dis.append({'input': 'model driver died', 'impl': '', 'model': model['__died__']})
     return {
-        'evaluations': len(cases) + len(fcases) + len(known), 'distinct_nontrivial': len(set(src.values())),
-        'rule': 'bounded-exhaustive single-line programs: %d heads (every mnemonic, every directive in . and # form, a macro call, a labelled line, nothing) x operand lists of length 0, 1, 2 (dictionary of %d valid/boundary/hostile texts; second operand over %s) and 3 (over %d texts); a sample of the same lines in 5 contexts (.dseg, .eseg, macro body, untaken .if, small device); a hostile multi-line corpus (%d programs: recursion, unbalanced directives, huge sizes, long lists/lines/chains, nesting, odd bytes); %d random programs and byte/token mutations of valid programs (up to 64 KiB); file trees (include cycles, chains of 60 and 70 includes, directory as file, binary file). Every input runs in a worker process with a %d GiB address-space limit and a watchdog; a dead or timed-out worker is bisected to the single input' % (
-            len(heads()), len(DICT), 'the whole dictionary' if tier == 'thorough' else 'a core of %d' % len(CORE + VALID[:6]), 40 if tier == 'thorough' else 10, len(corpus), nrand, LIMIT_AS >> 30),
-        'samples': [PRELUDE + lines[5], PRELUDE + lines[-1]],
+        'evaluations': total[0] + len(known), 'distinct_nontrivial': len(distinct),
+        'rule': 'bounded-exhaustive single-line programs: %d heads (every mnemonic, every directive in . and # form, a macro call, a labelled line, nothing) x operand lists of length 0, 1, 2 (dictionary of %d valid/boundary/hostile texts; second operand over %s) and 3 (over %d texts); %s in 5 contexts (.dseg, .eseg, macro body, untaken .if, small device); a hostile multi-line corpus (%d programs: recursion, unbalanced directives, huge sizes, long lists/lines/chains, nesting, odd bytes); %d random programs and byte/token mutations of valid programs (up to 64 KiB); file trees (include cycles, chains of 60 and 70 includes, directory as file, binary file). Every input runs in a worker process with a %d GiB address-space limit and a watchdog; a dead or timed-out worker is bisected to the single input; inputs are processed in batches of %d' % (
+            len(heads()), len(DICT), 'the whole dictionary' if tier == 'thorough' else 'a core of %d' % len(CORE + VALID[:6]), 40 if tier == 'thorough' else 10,
+            'the same lines' if tier == 'thorough' else 'every 23rd of the same lines', len(corpus), nrand, LIMIT_AS >> 30, BATCH),
+        'samples': samples[:2],
         'exhaustive': False,
-        'distribution': dict(dist, wall_impl_s=round(time.time() - t0, 1), results=dict(Counter((impl.get(t[0]) or 'none').split()[0] for t in cases + fcases))),
+        'distribution': dict(dist, wall_s=round(time.time() - t0, 1), results=dict(results)),
         'disagreements': dis[:30], 'violations': vio[:40],
     }
 
